@@ -9,8 +9,30 @@ CHECKS = {
         "design_ref": "DESIGN.md 2/C11",
     },
 }
+CHECKS.update({
+    "C09": {
+        "text": "Whole walks of the real SVGPath rewrites (absolute, relative, absolute_moveto, explicit_lines, expand_shorthand, arcs_to_cubics, as_cmd_seq, move, subpaths, round_floats, round_multiple, basic shapes' as_path) on every letter sequence M|m + k<=2 (quick; +targeted k=3) / k<=3 (+k=4 sub-alphabet, thorough) over all 20 commands; every numeric argument is a z3 real, every feasible branch combination of the source (incl. the 1e-9 snap) is explored and the result compared with an independent SVG path interpreter by SMT validity queries.",
+        "note": "floats as reals; arc_to_cubic replaced by an interface-contract stub (geometry is C12); round() by contract; number lexing/printing is C10; merged tuple comparisons re-proved equivalent each run (lemma_merge).",
+        "design_ref": "DESIGN.md 2/C09",
+    },
+    "C13": {
+        "text": "svg_pathops/svg_types boolean-operation glue executed symbolically under an abstract Skia: for 1-3/1-4 operands with symbolic coordinates and every fill-rule assignment the region term handed back must be propositionally equivalent (z3) to the left fold of the set operation over Leaf(operand_i, fillType(rule_i)), leaves identified by provable coordinate equality; engine failures (solver-forked) must propagate. Refutations are replayed with real Skia and an independent winding-number sampler.",
+        "note": "decides only that picosvg asks Skia the right question and returns its answer; that Skia's op() is the set operation is trusted (C++). Snap band assumed empty (C09).",
+        "design_ref": "DESIGN.md 2/C13",
+    },
+    "C18": {
+        "text": "might_paint / remove_empty_subpaths / remove_unpainted_shapes executed symbolically with opacities, stroke width, coordinates and the abstract Skia area as z3 reals, over all combinations of fill/stroke/display given as attribute or style and several command skeletons; assertion per path: reported-unpainted => paints nothing under the SVG cascade (SMT validity).",
+        "note": "area>0 <=> non-empty interior is Skia's (trusted); floats as reals; snap band assumed empty.",
+        "design_ref": "DESIGN.md 2/C18",
+    },
+    "C19": {
+        "text": "Rect.intersection/union/empty, shape and document bounding boxes, and SVG.clip_to_viewbox on picosvg-shaped documents (1-2/1-3 paths, optional translucent group) with symbolic viewBox and geometry under the abstract Skia: dropped iff bounds and viewBox are interior-disjoint, untouched iff bounds inside, otherwise region term == shape intersect (bounds intersect viewBox); order, paint, group pruning checked; all by SMT validity per path.",
+        "note": "tightness of Skia bounds on curves and the set semantics of its intersection are trusted; floats as reals.",
+        "design_ref": "DESIGN.md 2/C19",
+    },
+})
 NOT_APPLICABLE = {
     "C17": "termination/time-bound over cyclic reference graphs and libxml2 entity loading: no numeric or byte-level input to make symbolic, non-termination is not an assertion a bounded symbolic path can refute (budget exhausted = inconclusive); enumerating reference graphs under a watchdog would be a different technique family (DESIGN.md section 3)",
 }
-for _p in ["C01","C02","C03","C04","C05","C06","C07","C08","C09","C10","C12","C13","C14","C15","C16","C18","C19","C20"]:
+for _p in ["C01","C02","C03","C04","C05","C06","C07","C08","C10","C12","C14","C15","C16","C20"]:
     NOT_APPLICABLE.setdefault(_p, PENDING)
